@@ -87,6 +87,11 @@ pub enum Instr {
     Hold { counter: u32 },
     /// `FuturesUnordered` of one-shot requests (known-finding class for C07)
     JoinAllUnordered { sites: Vec<u32> },
+    /// task-to-task channel: spawn a producer sub-task holding the sender of a fresh unbounded
+    /// channel; pushes a join handle slot and a stream slot (the receiver) in this task
+    SpawnPipe { script: Script },
+    /// producer side: send a register (or 0) into the channel this task was spawned with
+    Send { reg: Option<usize> },
 }
 
 impl Cmd {
@@ -202,7 +207,7 @@ impl Script {
         self.instrs
             .iter()
             .map(|i| match i {
-                Instr::Spawn { script } => 1 + script.size(),
+                Instr::Spawn { script } | Instr::SpawnPipe { script } => 1 + script.size(),
                 Instr::EmitThen { cmd, .. } => 1 + cmd.size(),
                 _ => 1,
             })
@@ -214,7 +219,7 @@ impl Script {
             .instrs
             .iter()
             .map(|i| match i {
-                Instr::Spawn { script } => script.depth(),
+                Instr::Spawn { script } | Instr::SpawnPipe { script } => script.depth(),
                 Instr::EmitThen { cmd, .. } => cmd.depth(),
                 _ => 0,
             })
@@ -245,6 +250,11 @@ impl Script {
                 Instr::Yield { .. } => out.push("i.Yield"),
                 Instr::Hold { .. } => out.push("i.Hold"),
                 Instr::JoinAllUnordered { .. } => out.push("i.JoinAllUnordered"),
+                Instr::SpawnPipe { script } => {
+                    out.push("i.SpawnPipe");
+                    script.constructors(out)
+                }
+                Instr::Send { .. } => out.push("i.Send"),
             }
         }
     }
